@@ -20,9 +20,10 @@ def _attr_chain(e):
 
 
 # ---------------------------------------------------------------------------- VISIT-1 / VISIT-2 / VISIT-6
-def _is_loc_eq(atom, allow_parent=False):
-    """atom is `X._location == self.search` (or, with allow_parent, `== self.search[:-1]`), in either order."""
-    if not (isinstance(atom, ast.Compare) and len(atom.ops) == 1 and isinstance(atom.ops[0], ast.Eq)):
+def _is_loc_eq(atom, allow_parent=False, any_polarity=False):
+    """atom is `X._location == self.search` (or, with allow_parent, `== self.search[:-1]`), in either order; with
+    any_polarity `!=` counts too (an exact comparison written negatively)."""
+    if not (isinstance(atom, ast.Compare) and len(atom.ops) == 1 and isinstance(atom.ops[0], (ast.Eq, ast.NotEq) if any_polarity else ast.Eq)):
         return False
     sides = [atom.left, atom.comparators[0]]
     loc_side = [s for s in sides if isinstance(s, ast.Attribute) and s.attr == "_location"]
@@ -46,13 +47,21 @@ def rule_visit1(prog, rep, tier, anchor="ast_utils.RewriteAtQuery"):
     gv = ci.methods.get("generic_visit")
     if gv is None:
         raise AnalysisError("VISIT-1: %s.generic_visit not found" % anchor)
-    # the predicate must exist in generic_visit
+    # the predicate must exist in generic_visit: every path that returns the replacement carries the fact
+    # `node._location == self.search` (whatever the syntactic form: if-body, guard clause with `!=`, ...)
     pred_found = False
-    for n in ast.walk(gv.node):
-        if isinstance(n, ast.If):
-            if any(_is_loc_eq(a) == "exact" and p for a, p in facts(n.test, True)):
-                if any(isinstance(r, ast.Return) and isinstance(r.value, ast.Attribute) and r.value.attr == "replacement_node" for r in ast.walk(n)):
-                    pred_found = True
+    gpaths = [p_ for p_ in CFG(gv.node).paths() if p_[-1][0].kind == "RETURN"]
+    rets = 0
+    unguarded = 0
+    for path in gpaths:
+        last = [n_.stmt for n_, _ in path if n_.stmt is not None and isinstance(n_.stmt, ast.Return)]
+        if not last or not (isinstance(last[-1].value, ast.Attribute) and last[-1].value.attr == "replacement_node"):
+            continue
+        rets += 1
+        fs = [f for n2, l in path if l is not None and l[0] not in ("iter", "except") for f in facts(l[0], l[1])]
+        if not any(_is_loc_eq(a) == "exact" and p for a, p in fs):
+            unguarded += 1
+    pred_found = rets > 0 and unguarded == 0
     if not pred_found:
         rep.violation(Finding("VISIT-1", anchor, "generic_visit-predicate",
                               "generic_visit no longer returns the replacement exactly when node._location == self.search", loc(prog, gv.node)))
@@ -143,11 +152,25 @@ def rule_visit6(prog, rep, tier, anchors=("ast_utils.RewriteAtQuery", "ast_utils
             ci = prog.cls(a)
             for nm, m in ci.methods.items():
                 nodes.append(("%s.%s" % (a, nm), m.node))
+    def query_names(root):
+        """the query parameter of a resolver function (its first parameter, unless a method) and the locals copied from it"""
+        ps = [a.arg for a in root.args.args]
+        if not ps or ps[0] in ("self", "cls"):
+            return set()
+        q = {ps[0]}
+        for _ in range(3):
+            for st in ast.walk(root):
+                if isinstance(st, ast.Assign) and names_in(st.value) & q and not any(isinstance(x, ast.Attribute) and x.attr == "_location" for x in ast.walk(st.value)):
+                    q |= {t.id for t in st.targets if isinstance(t, ast.Name)}
+        return q
+
     for where, root in nodes:
         for c in ast.walk(root):
             if isinstance(c, ast.Compare) and any(isinstance(x, ast.Attribute) and x.attr == "_location" for x in ast.walk(c)):
+                if not any(isinstance(x, ast.Name) and x.id in query_names(root) or isinstance(x, ast.Attribute) and x.attr == "search" for x in ast.walk(c)):
+                    continue  # not a comparison with the query (e.g. a node's location against its own name)
                 n += 1
-                kind = _is_loc_eq(c, allow_parent=True)
+                kind = _is_loc_eq(c, allow_parent=True, any_polarity=True)
                 if kind:
                     rep.holds("VISIT-6", "%s: %s" % (where, src(c, 70)), loc(prog, c), "exact equality (%s)" % kind)
                 else:
@@ -166,7 +189,7 @@ def rule_visit6(prog, rep, tier, anchors=("ast_utils.RewriteAtQuery", "ast_utils
             if isinstance(c, ast.Compare) and any(isinstance(x, ast.Name) and x.id in ("location", "_location") or isinstance(x, ast.Attribute) and x.attr == "_location" for x in ast.walk(c)) \
                     and any(isinstance(x, ast.Name) and x.id == "search" or isinstance(x, ast.Attribute) and x.attr == "search" for x in ast.walk(c)):
                 n += 1
-                kind = _is_loc_eq(c, allow_parent=True)
+                kind = _is_loc_eq(c, allow_parent=True, any_polarity=True)
                 if not kind:
                     rep.violation(Finding("VISIT-6", f.qualname, "loc-compare:%s" % src(c, 70),
                                           "location compared inexactly with the query in a helper: %s" % src(c, 80), loc(prog, c)))
@@ -178,14 +201,8 @@ def rule_visit6(prog, rep, tier, anchors=("ast_utils.RewriteAtQuery", "ast_utils
 INIT, UNMATCHED, MATCHED = "INIT", "UNMATCHED", "MATCHED"
 
 
-def rule_visit3(prog, rep, tier, anchor="ast_utils.find_in_ast", location_inductive=None):
-    """VISIT-3: resolver cursor discipline as a typestate over the CFG of find_in_ast: a path segment is consumed only
-    when the previous one was matched, and a non-None answer is returned only in state MATCHED (or before any consume)."""
-    fi = prog.fn(anchor)
-    params = fi.params()
-    if not params:
-        raise AnalysisError("VISIT-3: %s has no parameters" % anchor)
-    search = params[0]
+def _visit3_fn(prog, rep, fi, search, anchor, tag=""):
+    """the typestate analysis of one resolver function whose parameter `search` is the (remaining) path"""
     # cursor variables: copies of the search parameter
     cursors = {search}
     changed = True
@@ -205,11 +222,18 @@ def rule_visit3(prog, rep, tier, anchor="ast_utils.find_in_ast", location_induct
                         if isinstance(core, ast.Name) and core.id in cursors:
                             cursors.add(t.id)
                             changed = True
-    # segment variables: targets of S.pop(...) / for q in S
+    # segment variables: targets of S.pop(...) / for q in S / q = S[0]
     segs = set()
     for n in ast.walk(fi.node):
         if isinstance(n, ast.Assign) and _is_consume_expr(n.value, cursors):
             segs |= names_in(n.targets[0])
+        if isinstance(n, ast.Assign):
+            tg, val = n.targets[0], n.value
+            pairs = list(zip(tg.elts, val.elts)) if isinstance(tg, ast.Tuple) and isinstance(val, ast.Tuple) and len(tg.elts) == len(val.elts) else [(tg, val)]
+            for t, v in pairs:
+                if isinstance(t, ast.Name) and isinstance(v, ast.Subscript) and isinstance(v.value, ast.Name) and v.value.id in cursors \
+                        and isinstance(v.slice, ast.Constant) and v.slice.value == 0:
+                    segs.add(t.id)
         if isinstance(n, ast.For) and isinstance(n.iter, ast.Name) and n.iter.id in cursors:
             segs |= names_in(n.target)
     # variables defined by a search keyed on the segment: x = next(filter(lambda ...: ... == q ...), None)
@@ -245,9 +269,13 @@ def rule_visit3(prog, rep, tier, anchor="ast_utils.find_in_ast", location_induct
                     return True
             if isinstance(r, ast.Delete) and any(isinstance(t, ast.Subscript) and isinstance(t.value, ast.Name) and t.value.id in cursors for t in r.targets):
                 return True
-            if isinstance(r, ast.Assign) and isinstance(r.targets[0], ast.Name) and r.targets[0].id in cursors and isinstance(r.value, ast.Subscript) \
-                    and isinstance(r.value.value, ast.Name) and r.value.value.id in cursors and isinstance(r.value.slice, ast.Slice) and r.value.slice.lower is not None:
-                return True
+            if isinstance(r, ast.Assign):
+                tg, val = r.targets[0], r.value
+                pairs = list(zip(tg.elts, val.elts)) if isinstance(tg, ast.Tuple) and isinstance(val, ast.Tuple) and len(tg.elts) == len(val.elts) else [(tg, val)]
+                for t_, v_ in pairs:
+                    if isinstance(t_, ast.Name) and t_.id in cursors and isinstance(v_, ast.Subscript) \
+                            and isinstance(v_.value, ast.Name) and v_.value.id in cursors and isinstance(v_.slice, ast.Slice) and v_.slice.lower is not None:
+                        return True
         return False
 
     def is_match_edge(label):
@@ -262,6 +290,8 @@ def rule_visit3(prog, rep, tier, anchor="ast_utils.find_in_ast", location_induct
                     key = [s for s in sides if isinstance(s, ast.Name) and s.id in (segs | {search})]
                     if ident and key:
                         return True
+                if isinstance(op, ast.In) and p is True and isinstance(sides[0], ast.Name) and sides[0].id in segs:
+                    return True  # the segment is one of the names a candidate node defines
                 if (isinstance(op, ast.IsNot) and p is True or isinstance(op, ast.Is) and p is False) and isinstance(sides[1], ast.Constant) and sides[1].value is None \
                         and isinstance(sides[0], ast.Name) and sides[0].id in found_vars:
                     return True
@@ -275,7 +305,7 @@ def rule_visit3(prog, rep, tier, anchor="ast_utils.find_in_ast", location_induct
     ans_ord = {n: i + 1 for i, n in enumerate(answers)}
     if not consumes:
         # accepted alternative idiom: no cursor at all
-        rep.holds("VISIT-3", "%s has no cursor (pure _location resolution)" % anchor, loc(prog, fi.node), "")
+        rep.holds("VISIT-3", "%s%s has no cursor (pure _location resolution)" % (tag, anchor), loc(prog, fi.node), "")
     state_in = {n: set() for n in cfg.nodes}
     state_in[cfg.entry] = {INIT}
     work = [cfg.entry]
@@ -305,20 +335,56 @@ def rule_visit3(prog, rep, tier, anchor="ast_utils.find_in_ast", location_induct
     for n, k in cons_ord.items():
         if ("consume", k) in viol:
             rep.violation(Finding(
-                "VISIT-3", anchor, "consume#%d" % k,
+                "VISIT-3", anchor, "%sconsume#%d" % (tag, k),
                 "the path segment is advanced (%s) on a path where the previously consumed segment was not matched against any node: that segment "
                 "no longer influences the result, so unrelated or non-existent path components are accepted and unrelated definitions change the answer"
                 % src(n.stmt, 60), loc(prog, n.stmt)))
         else:
-            rep.holds("VISIT-3", "consume#%d %s only after a match" % (k, src(n.stmt, 50)), loc(prog, n.stmt), "")
+            rep.holds("VISIT-3", "%sconsume#%d %s only after a match" % (tag, k, src(n.stmt, 50)), loc(prog, n.stmt), "")
     for n, k in ans_ord.items():
         if ("answer", k) in viol:
-            rep.violation(Finding("VISIT-3", anchor, "answer#%d" % k,
+            rep.violation(Finding("VISIT-3", anchor, "%sanswer#%d" % (tag, k),
                                   "a node is returned (%s) on a path where the last consumed segment was never matched" % src(n.stmt, 60), loc(prog, n.stmt)))
         else:
-            rep.holds("VISIT-3", "answer#%d %s only when matched" % (k, src(n.stmt, 50)), loc(prog, n.stmt), "")
-    if len(consumes) + len(answers) < 2:
-        raise AnalysisError("VISIT-3: resolver events not recognised in %s (%d consumes, %d answers)" % (anchor, len(consumes), len(answers)))
+            rep.holds("VISIT-3", "%sanswer#%d %s only when matched" % (tag, k, src(n.stmt, 50)), loc(prog, n.stmt), "")
+    return {"events": len(consumes) + len(answers), "cursors": cursors, "answers": answers}
+
+
+def rule_visit3(prog, rep, tier, anchor="ast_utils.find_in_ast", location_inductive=None):
+    """VISIT-3: resolver cursor discipline as a typestate over the CFG of find_in_ast (and of every helper of its region
+    that is handed the cursor): a path segment is consumed only when the previous one was matched, and a non-None answer
+    is returned only in state MATCHED (or before any consume)."""
+    fi0 = prog.fn(anchor)
+    if not fi0.params():
+        raise AnalysisError("VISIT-3: %s has no parameters" % anchor)
+    region = set(prog.region(fi0))
+    todo = [(fi0, fi0.params()[0])]
+    done = set()
+    total = 0
+    main = None
+    while todo:
+        f_, sp = todo.pop(0)
+        if (f_, sp) in done:
+            continue
+        done.add((f_, sp))
+        r_ = _visit3_fn(prog, rep, f_, sp, anchor, tag="" if f_ is fi0 else "%s: " % f_.qualname)
+        if f_ is fi0:
+            main = r_
+        total += r_["events"]
+        # helpers that receive the cursor (or a tail of it) continue the resolution
+        for c in ast.walk(f_.node):
+            if not isinstance(c, ast.Call):
+                continue
+            for t in prog.resolve_expr_fn(c.func, c):
+                if isinstance(t, FunctionInfo) and t in region and t.params():
+                    pn = t.params()
+                    for i, a in enumerate(c.args):
+                        core = a.value if isinstance(a, ast.Subscript) and isinstance(a.slice, ast.Slice) else a
+                        if i < len(pn) and isinstance(core, ast.Name) and core.id in r_["cursors"]:
+                            todo.append((t, pn[i]))
+    if total < 2:
+        raise AnalysisError("VISIT-3: resolver events not recognised in %s (%d events)" % (anchor, total))
+    fi, answers = fi0, main["answers"]
     # VISIT-3b: an answer decided by `_location == search` alone is sound with the (non-inductive) annotation only when the
     # candidates are the children of the last matched node (the cursor); a lookup over all descendants (ast.walk) or any
     # other candidate set can hit a node at another depth that carries the same two-element location.
@@ -384,40 +450,129 @@ def _is_consume_expr(x, cursors):
 def location_assignments(prog, anchor="ast_utils.annotate_ancestry"):
     fi = prog.fn(anchor)
     out = []
-    for st in ast.walk(fi.node):
-        if isinstance(st, ast.Assign):
-            for t in st.targets:
-                if isinstance(t, ast.Attribute) and t.attr == "_location":
-                    out.append((st, t))
+    for f_ in prog.region(fi):
+        for st in ast.walk(f_.node):
+            if isinstance(st, ast.Assign) and enclosing_fn(st) in (f_, fi) or isinstance(st, ast.Assign) and f_ is fi:
+                for t in st.targets:
+                    if isinstance(t, ast.Attribute) and t.attr == "_location" and (st, t) not in out:
+                        out.append((st, t))
     return fi, out
 
 
+def _tuple_positions(fn_node, derived):
+    """{container name: set of tuple positions that carry a location-derived value} for containers that are filled with
+    tuple displays (initial value, .append/.appendleft/.extend arguments)"""
+    pos = {}
+
+    def is_derived(e):
+        return any(isinstance(x, ast.Attribute) and x.attr == "_location" and isinstance(x.ctx, ast.Load) for x in ast.walk(e)) or bool(names_in(e) & derived)
+
+    def feed(name, expr):
+        for tup in ast.walk(expr):
+            if isinstance(tup, ast.Tuple) and tup.elts and not any(isinstance(getattr(tup, "_parent", None), k) for k in (ast.Subscript,)):
+                for i, e in enumerate(tup.elts):
+                    if not isinstance(e, ast.Tuple) and is_derived(e):
+                        pos.setdefault(name, set()).add((len(tup.elts), i))
+    for st in ast.walk(fn_node):
+        if isinstance(st, ast.Assign) and len(st.targets) == 1 and isinstance(st.targets[0], ast.Name):
+            feed(st.targets[0].id, st.value)
+        elif isinstance(st, ast.Call) and isinstance(st.func, ast.Attribute) and st.func.attr in ("append", "appendleft", "extend", "insert") and isinstance(st.func.value, ast.Name):
+            for a in st.args:
+                feed(st.func.value.id, a)
+    return pos
+
+
 def _loc_derived_names(fn_node):
-    """names whose value is derived from a `._location` read (flow-insensitive)."""
+    """names whose value is derived from a `._location` read (flow-insensitive).  Tuple unpacking is position-sensitive
+    when the source is a tuple display or a container known to hold tuple displays (work-list idiom)."""
     d = set()
     changed = True
     while changed:
         changed = False
+        tp = _tuple_positions(fn_node, d)
+
+        def is_derived(e):
+            return any(isinstance(x, ast.Attribute) and x.attr == "_location" and isinstance(x.ctx, ast.Load) for x in ast.walk(e)) or bool(names_in(e) & d)
+
+        def bind(target, value):
+            nonlocal changed
+            if isinstance(target, ast.Name):
+                if target.id not in d and is_derived(value):
+                    d.add(target.id)
+                    changed = True
+            elif isinstance(target, (ast.Tuple, ast.List)):
+                if isinstance(value, (ast.Tuple, ast.List)) and len(value.elts) == len(target.elts):
+                    for t_, v_ in zip(target.elts, value.elts):
+                        bind(t_, v_)
+                    return
+                # x, y = cont.popleft() / cont.pop() / cont[i] / iteration element
+                cont = None
+                v = value
+                if isinstance(v, ast.Call) and isinstance(v.func, ast.Attribute) and v.func.attr in ("pop", "popleft") and isinstance(v.func.value, ast.Name):
+                    cont = v.func.value.id
+                elif isinstance(v, ast.Subscript) and isinstance(v.value, ast.Name):
+                    cont = v.value.id
+                elif isinstance(v, ast.Name):
+                    cont = v.id
+                if cont is not None and cont in tp:
+                    for i, t_ in enumerate(target.elts):
+                        if isinstance(t_, ast.Name) and t_.id not in d and (len(target.elts), i) in tp[cont]:
+                            d.add(t_.id)
+                            changed = True
+                    return
+                if is_derived(value):
+                    for t_ in target.elts:
+                        bind(t_, value)
         for st in ast.walk(fn_node):
             if isinstance(st, ast.Assign):
                 for t in st.targets:
-                    if isinstance(t, ast.Name) and t.id not in d:
-                        if any(isinstance(x, ast.Attribute) and x.attr == "_location" and isinstance(x.ctx, ast.Load) for x in ast.walk(st.value)) or names_in(st.value) & d:
-                            d.add(t.id)
-                            changed = True
+                    bind(t, st.value)
+            elif isinstance(st, (ast.For, ast.comprehension)):
+                it = st.iter
+                if isinstance(st.target, (ast.Tuple, ast.List)) and isinstance(it, ast.Name) and it.id in tp:
+                    bind(st.target, it)
+                elif isinstance(st.target, ast.Name):
+                    bind(st.target, it)
     return d
+
+
+def _loc_kind(st, base, fn_node):
+    """what kind of node receives the location: the innermost positive isinstance/hasattr condition on the receiver"""
+    for t, pol in expr_guards(st, stop=fn_node):
+        for a, p in facts(t, pol):
+            if not p or not isinstance(a, ast.Call) or not isinstance(a.func, ast.Name) or len(a.args) != 2:
+                continue
+            if not (isinstance(a.args[0], ast.Name) and isinstance(base, ast.Name) and a.args[0].id == base.id):
+                continue
+            if a.func.id == "isinstance":
+                k = a.args[1]
+                names = [k.id] if isinstance(k, ast.Name) else sorted(x.id if isinstance(x, ast.Name) else getattr(x, "attr", "?") for x in getattr(k, "elts", []))
+                return "isinstance:" + "|".join(names)
+            if a.func.id == "hasattr" and isinstance(a.args[1], ast.Constant):
+                return "hasattr:%s" % a.args[1].value
+    return "unconditional"
 
 
 def visit4_results(prog, anchor="ast_utils.annotate_ancestry"):
     fi, assigns = location_assignments(prog, anchor)
     if not assigns:
         raise AnalysisError("VISIT-4: no `_location` assignment in %s" % anchor)
-    derived = _loc_derived_names(fi.node)
     root_params = set(fi.params())
     res = []
+    derived_of = {}
     for st, t in assigns:
+        f_ = enclosing_fn(st)
+        # the function whose scope the names of this statement live in (closures read the enclosing function's names)
+        scopes = [f_.node] if f_ is not None else []
+        if fi.node not in scopes and any(st is x for x in ast.walk(fi.node)):
+            scopes.append(fi.node)
+        derived = set()
+        for sc in scopes:
+            if id(sc) not in derived_of:
+                derived_of[id(sc)] = _loc_derived_names(sc)
+            derived |= derived_of[id(sc)]
         base = t.value
-        is_root = isinstance(base, ast.Name) and base.id in root_params and enclosing_fn(st) is fi
+        is_root = isinstance(base, ast.Name) and base.id in root_params and f_ is fi
         rhs = st.value
         inductive = any(isinstance(x, ast.Attribute) and x.attr == "_location" and isinstance(x.ctx, ast.Load) for x in ast.walk(rhs)) or bool(names_in(rhs) & derived)
         res.append((st, t, is_root, inductive))
@@ -439,8 +594,9 @@ def rule_visit4(prog, rep, tier, anchor="ast_utils.annotate_ancestry"):
         elif ind:
             rep.holds("VISIT-4", inst, loc(prog, st), "data-dependent on a _location")
         else:
+            f_ = enclosing_fn(st)
             rep.violation(Finding(
-                "VISIT-4", anchor, "loc:%s" % inst,
+                "VISIT-4", anchor, "loc:%s" % _loc_kind(st, t.value, f_.node if f_ is not None else fi.node),
                 "the location %s is built from the parent's simple name only, not from the parent's location: at nesting depth 3 "
                 "(class A: class B: def m) the method is annotated ['B','m'] and is indistinguishable from a top-level B.m" % inst, loc(prog, st)))
     if len(res) < 3:
